@@ -118,35 +118,67 @@ def rule_dict_tables(ctx: Ctx, rule: str = "writer-reader-tables") -> None:
     _string_form_tables(ctx, rule, prog, td, fs, val)
 
 
+def returned_dicts(prog: Program, fi: FuncInfo, inline=None) -> List[Dict[str, object]]:
+    """For each returning path of `fi`: {key: value} of the dictionary it returns - the entries of the display it was
+    created from, those of the dict(...) keywords, and the stores d[key] = value made into it on the path.  Helpers the
+    reference tree does not have are inlined, so a dictionary built by a new helper is seen as well."""
+    out: List[Dict[str, object]] = []
+    for p in Sim(prog, fi, loop_iters=(1,), inline=inline).paths():
+        if p.terminal != "return":
+            continue
+        val = p.value
+        items: Dict[str, object] = {}
+        if isinstance(val, tuple) and val and val[0] == "dict":
+            for k, v in val[1]:
+                if k is None:
+                    raise AnalysisError("%s returns a dictionary with a ** entry" % fi.key)
+                if not (is_const(k) and isinstance(k[1], str)):
+                    raise AnalysisError("%s returns a dictionary with the computed key %s" % (fi.key, show(k, 2)))
+                items[k[1]] = v
+        elif isinstance(val, tuple) and val and val[0] == "call" and val[1] == "dict" and not val[2]:
+            items.update({k: v for k, v in val[3]})
+        else:
+            raise AnalysisError("%s does not return a dictionary display: %s" % (fi.key, show(val, 2)))
+        for e in p.events:
+            if e["kind"] == "store" and isinstance(e["target"], tuple) and e["target"][0] == "sub" and e["target"][1] == val:
+                k = e["target"][2]
+                if not (is_const(k) and isinstance(k[1], str)):
+                    raise AnalysisError("%s stores the computed key %s" % (fi.key, show(k, 2)))
+                items[k[1]] = e["value"]
+        out.append(items)
+    if not out:
+        raise AnalysisError("%s has no returning path" % fi.key)
+    return out
+
+
 def _string_form_tables(ctx: Ctx, rule: str, prog: Program, td: FuncInfo, fs: FuncInfo, val: FuncInfo) -> None:
     from .rules_exc import _required_keys
 
-    # --- string form
-    written = {k: v for b, k, v in _subscript_store_keys(td.node)}
+    # --- string form: what to_dict returns, read off its simulated paths
+    inl = None  # the default: helpers the reference tree does not have are inlined
+    dicts = returned_dicts(prog, td, inl)
     params = set(fs.params) - {"simplify"}
     req_plain = _required_keys(val, prog)
-    for name, a, b in (
-        ("keys written by to_dict = parameters of from_strings (the reader splats the dictionary)", set(written), params),
-        ("keys written by to_dict = keys required by validate_contract_dict", set(written), req_plain),
-    ):
-        if a == b and a:
-            ctx.ok(rule, td.key, name + ": %s" % sorted(a))
-        else:
-            ctx.violation(rule, td.key, name, "written %s vs %s" % (sorted(a), sorted(b)), where=td.where)
-    fl2 = Flow(td.node)
     me = td.params[0]
-    for k, v in sorted(written.items()):
-        fld = FIELD_OF_KEY.get(k)
-        if fld is None:
-            continue
-        src = fl2.sources(v)
-        want = "%s.%s" % (me, fld)
-        others = {"%s.%s" % (me, f) for f in FIELD_OF_KEY.values()} - {want}
-        construct = "to_dict['%s'] is built from self.%s" % (k, fld)
-        if want in src and not (src & others):
-            ctx.ok(rule, td.key, construct)
-        else:
-            ctx.violation(rule, td.key, construct, "sources: %s" % sorted(s for s in src if s.startswith(me + ".")), where=td.where)
+    for written in dicts:
+        for name, a, b in (
+            ("keys written by to_dict = parameters of from_strings (the reader splats the dictionary)", set(written), params),
+            ("keys written by to_dict = keys required by validate_contract_dict", set(written), req_plain),
+        ):
+            if a == b and a:
+                ctx.ok(rule, td.key, name + ": %s" % sorted(a))
+            else:
+                ctx.violation(rule, td.key, name, "written %s vs %s" % (sorted(a), sorted(b)), where=td.where)
+        for k, v in sorted(written.items()):
+            fld = FIELD_OF_KEY.get(k)
+            if fld is None:
+                continue
+            src = {f for f in FIELD_OF_KEY.values() if mentions(v, lambda y, f=f: y == ("attr", ("param", me), f))}
+            construct = "to_dict['%s'] is built from self.%s" % (k, fld)
+            if src == {fld}:
+                ctx.ok(rule, td.key, construct)
+            else:
+                ctx.violation(rule, td.key, construct, "sources: %s" % sorted("%s.%s" % (me, f) for f in src), where=td.where)
     # from_strings: each constructor field from the same-named parameter
     fl3 = Flow(fs.node)
     for r in [n for n in ast.walk(fs.node) if isinstance(n, ast.Return) and isinstance(n.value, ast.Call)]:
@@ -161,10 +193,11 @@ def _string_form_tables(ctx: Ctx, rule: str, prog: Program, td: FuncInfo, fs: Fu
     # compound pair
     ctd = prog.func("PolyhedralIoContractCompound.to_dict")
     cfs = prog.func("PolyhedralIoContractCompound.from_strings")
-    a = {k for b, k, v in _subscript_store_keys(ctd.node)}
     b = set(cfs.params)
     construct = "keys written by the compound to_dict = parameters of the compound from_strings"
-    (ctx.ok(rule, ctd.key, construct + ": %s" % sorted(a)) if a == b and a else ctx.violation(rule, ctd.key, construct, "written %s vs %s" % (sorted(a), sorted(b)), where=ctd.where))
+    for written in returned_dicts(prog, ctd, inl):
+        a = set(written)
+        (ctx.ok(rule, ctd.key, construct + ": %s" % sorted(a)) if a == b and a else ctx.violation(rule, ctd.key, construct, "written %s vs %s" % (sorted(a), sorted(b)), where=ctd.where))
 
 
 def _keys_in(fl: Flow, e: ast.AST, dname: str, seen: Optional[Set[str]] = None) -> Set[str]:
@@ -350,6 +383,30 @@ def rule_number_format(ctx: Ctx, rule: str = "number-format") -> None:
     """_number_to_string formats every float branch with the same 4-significant-digit spec."""
     prog = ctx.prog
     fi = prog.func("serializer._number_to_string")
+    # asked of the function itself first: its text for a few floats is the four-significant-digit one
+    try:
+        from .termalg import Raised, TermAlg, num
+
+        probes = [1234.5678, 0.000123456, 2.5, -7.0, 12345678.9, -0.00098765, 1.0, 100000.0]
+        bad = None
+        for v in probes:
+            r = TermAlg(prog).call(fi, [num(_F(v).limit_denominator(10**12))])
+            if not (isinstance(r, tuple) and r and r[0] == "str") or "?" in r[1]:
+                raise AnalysisError("text not followed")
+            if r[1] != format(float(_F(v).limit_denominator(10**12)), ".4g"):
+                bad = "%r is written %r, four significant digits give %r" % (v, r[1], format(v, ".4g"))
+                break
+        construct = "_number_to_string writes floats with four significant digits (.4g)"
+        (ctx.ok(rule, fi.key, construct) if bad is None else ctx.violation(rule, fi.key, construct, bad, where=fi.where))
+        # the branch for sympy numbers is not reached by plain floats: its format specification, where one is written
+        # out, has to be the same
+        lit = [norm(n_.format_spec) for n_ in ast.walk(fi.node) if isinstance(n_, ast.FormattedValue) and n_.format_spec is not None]
+        lit += [norm(c_.args[1]) for c_ in ast.walk(fi.node) if isinstance(c_, ast.Call) and isinstance(c_.func, ast.Name) and c_.func.id == "format" and len(c_.args) == 2 and isinstance(c_.args[1], ast.Constant)]
+        if bad is None and lit and not all(".4g" in x for x in lit):
+            ctx.violation(rule, fi.key, "_number_to_string uses one format spec (.4g) on all float branches", "format specs: %s" % lit, where=fi.where)
+        return
+    except (AnalysisError, Raised):
+        pass
     specs = []
     for node in ast.walk(fi.node):
         if isinstance(node, ast.FormattedValue) and node.format_spec is not None:
